@@ -756,13 +756,36 @@ func ruleC19SameFile(c *Checker) {
 		if fn.Package() == nil || fn.Package().Pkg.Path() != p.PkgPath("slug") {
 			continue
 		}
-		var opens []*ssa.Call
-		for _, ci := range callsTo(fn, func(o *types.Func) bool { return isFunc(o, "os", "Open") }) {
-			if cl, ok := ci.(*ssa.Call); ok {
-				opens = append(opens, cl)
+		// the paths that are opened: arguments of os.Open, or string arguments of a module helper that opens
+		var opened []ssa.Value
+		for _, ci := range callsIn(fn) {
+			cl, ok := ci.(*ssa.Call)
+			if !ok {
+				continue
+			}
+			if isFunc(calleeObj(cl), "os", "Open") {
+				opened = append(opened, cl.Call.Args[0])
+				continue
+			}
+			g := cl.Common().StaticCallee()
+			if g == nil || !p.InModule(g) {
+				continue
+			}
+			opens := false
+			for h := range p.reach(g) {
+				if len(callsTo(h, func(o *types.Func) bool { return isFunc(o, "os", "Open") })) > 0 {
+					opens = true
+				}
+			}
+			if opens {
+				for _, a := range cl.Call.Args {
+					if isStringType(a.Type()) {
+						opened = append(opened, a)
+					}
+				}
 			}
 		}
-		if len(opens) == 0 {
+		if len(opened) == 0 {
 			continue
 		}
 		// conversions: the constant tar.TypeReg ('0') stored into a header's Typeflag behind an is-a-link test
@@ -799,8 +822,8 @@ func ruleC19SameFile(c *Checker) {
 					if !ok || !isFunc(calleeObj(scl), "os", "Stat") {
 						continue
 					}
-					for _, op := range opens {
-						if sameLoc(scl.Call.Args[0], op.Call.Args[0]) || canon(scl.Call.Args[0]) == canon(op.Call.Args[0]) {
+					for _, op := range opened {
+						if sameLoc(scl.Call.Args[0], op) || canon(scl.Call.Args[0]) == canon(op) {
 							fromOpened = true
 						}
 					}
